@@ -336,34 +336,21 @@ Fixpoint kvs_of (ps : list bytes) : list (bytes * bytes) :=
   | p :: r => match directive_of_part p with Some kv => kv :: kvs_of r | None => kvs_of r end
   end.
 
-Lemma find_last_step {V} n (kvs : list (bytes * V)) : forall acc,
-  fold_left (fun acc kv => if beq n (fst kv) then Some (snd kv) else acc) kvs acc =
-  match find_last n kvs with Some v => Some v | None => acc end.
-Proof.
-  unfold find_last. induction kvs as [|[k v] kvs IH]; intros acc; cbn [fold_left fst snd]; [reflexivity|].
-  rewrite IH. rewrite (IH (if beq n k then Some v else None)).
-  destruct (fold_left _ kvs None); [reflexivity|]. destruct (beq n k); reflexivity.
-Qed.
-Lemma find_last_cons {V} n k (v : V) kvs :
-  find_last n ((k, v) :: kvs) = match find_last n kvs with Some w => Some w | None => if beq n k then Some v else None end.
-Proof. unfold find_last at 1. cbn [fold_left fst snd]. apply find_last_step. Qed.
+(* the stored (raw) argument of a name, read as a quoted-string, after the parts ps have been collected on top of m *)
+Definition unq (kv : bytes * bytes) : bytes * bytes := (fst kv, parse_quoted_string (snd kv)).
 
 Lemma collect_lookup n ps : forall m,
-  alookup n (collect ps m) = match find_last n (kvs_of ps) with Some v => Some v | None => alookup n m end.
+  option_map parse_quoted_string (alookup n (collect ps m)) =
+  find_merged n (map unq (kvs_of ps)) (option_map parse_quoted_string (alookup n m)).
 Proof.
-  induction ps as [|p ps IH]; intros m; cbn [collect kvs_of]; [reflexivity|].
+  induction ps as [|p ps IH]; intros m; cbn [collect kvs_of map]; [reflexivity|].
   destruct (directive_of_part p) as [[k v]|]; [|apply IH].
-  rewrite IH, find_last_cons. destruct (find_last n (kvs_of ps)); [reflexivity|].
+  rewrite IH. cbn [map]. unfold find_merged. cbn [fold_left unq fst snd]. f_equal.
   destruct (beq n k) eqn:E.
-  - apply beq_eq in E. subst k. apply alookup_aset_same.
-  - apply alookup_aset_other, E.
-Qed.
-
-Lemma find_last_map {V W} (g : V -> W) n (kvs : list (bytes * V)) :
-  find_last n (map (fun kv => (fst kv, g (snd kv))) kvs) = option_map g (find_last n kvs).
-Proof.
-  induction kvs as [|[k v] kvs IH]; [reflexivity|]. cbn [map fst snd]. rewrite !find_last_cons, IH.
-  destruct (find_last n kvs); cbn; [reflexivity|]. destruct (beq n k); reflexivity.
+  - apply beq_eq in E. subst k. rewrite alookup_aset_same. cbn [option_map].
+    unfold combine_directive, step_meaning. destruct (alookup n m) as [prev|]; cbn [option_map]; [|reflexivity].
+    destruct (beq n no_cache_name); reflexivity.
+  - rewrite alookup_aset_other by exact E. reflexivity.
 Qed.
 
 Lemma kvs_of_cores es : forallb elem_ok es = true ->
@@ -436,10 +423,9 @@ Proof.
   - reflexivity.
   - rewrite join_lines by congruence. unfold parse_directives, render_line.
     rewrite parts_of_elems by (apply elems_ok_flatten, Hok).
-    unfold arg_of. rewrite collect_lookup. cbn [alookup].
-    replace (match find_last n (kvs_of (cores (flatten (l :: ls)))) with Some v => Some v | None => None end)
-      with (find_last n (kvs_of (cores (flatten (l :: ls))))) by (destruct (find_last _ _); reflexivity).
-    rewrite <- find_last_map, kvs_of_cores by (apply elems_ok_flatten, Hok).
+    unfold arg_of. rewrite collect_lookup. cbn [alookup option_map].
+    change (map unq) with (map (fun kv : bytes * bytes => (fst kv, parse_quoted_string (snd kv)))).
+    rewrite kvs_of_cores by (apply elems_ok_flatten, Hok).
     unfold meaning. rewrite dirs_of_flatten. reflexivity.
 Qed.
 
@@ -583,48 +569,42 @@ Proof.
 Qed.
 
 (* ---------- order and extensions ---------- *)
-Lemma find_last_app {V} n (a b : list (bytes * V)) :
-  find_last n (a ++ b) = match find_last n b with Some v => Some v | None => find_last n a end.
-Proof.
-  unfold find_last at 1. rewrite fold_left_app. fold (find_last n a). apply find_last_step.
-Qed.
+Lemma find_merged_app n a b acc : find_merged n (a ++ b) acc = find_merged n b (find_merged n a acc).
+Proof. unfold find_merged. apply fold_left_app. Qed.
 
-Lemma meaning_app a b n : meaning (a ++ b) n = match meaning b n with Some v => Some v | None => meaning a n end.
-Proof. unfold meaning. rewrite map_app. apply find_last_app. Qed.
+Lemma find_merged_cons n kv l acc :
+  find_merged n (kv :: l) acc = find_merged n l (if beq n (fst kv) then step_meaning n acc (snd kv) else acc).
+Proof. reflexivity. Qed.
 
 (* a directive of another name, anywhere in the list, changes nothing for [n] *)
 Lemma meaning_extension a x b n : beq n (dn x) = false -> meaning (a ++ x :: b) n = meaning (a ++ b) n.
 Proof.
-  intros H. rewrite !meaning_app. unfold meaning at 1. cbn [map]. rewrite find_last_cons. fold (meaning b n).
-  destruct (meaning b n); [reflexivity|]. rewrite H. reflexivity.
+  intros H. unfold meaning. rewrite !map_app. cbn [map]. rewrite !find_merged_app.
+  rewrite find_merged_cons. cbn [fst]. rewrite H. reflexivity.
 Qed.
 
-Lemma find_last_in {V} n (kvs : list (bytes * V)) v : find_last n kvs = Some v -> In (n, v) kvs.
+(* a name bound at most once: its meaning is that binding *)
+Lemma find_merged_absent n kvs acc : ~ In n (map fst kvs) -> find_merged n kvs acc = acc.
 Proof.
-  induction kvs as [|[k w] kvs IH]; [discriminate|]. rewrite find_last_cons.
-  destruct (find_last n kvs) eqn:F.
-  - intros H. right. apply IH. exact H.
-  - destruct (beq n k) eqn:B; [|discriminate]. intros H. injection H as <-. apply beq_eq in B. subst. left. reflexivity.
+  revert acc. induction kvs as [|[k v] kvs IH]; intros acc H; [reflexivity|].
+  unfold find_merged. cbn [fold_left fst snd]. destruct (beq n k) eqn:E.
+  - exfalso. apply H. left. apply beq_eq in E. symmetry. exact E.
+  - apply IH. intros Hin. apply H. right. exact Hin.
 Qed.
-Lemma find_last_none {V} n (kvs : list (bytes * V)) : find_last n kvs = None -> forall v, ~ In (n, v) kvs.
+Lemma find_merged_unique n kvs v : NoDup (map fst kvs) -> In (n, v) kvs -> find_merged n kvs None = Some v.
 Proof.
-  induction kvs as [|[k w] kvs IH]; [intros _ v []|]. rewrite find_last_cons.
-  destruct (find_last n kvs) eqn:F; [discriminate|]. destruct (beq n k) eqn:B; [discriminate|].
-  intros _ v [H|H]; [injection H as -> _; rewrite beq_refl in B; discriminate|exact (IH eq_refl v H)].
-Qed.
-Lemma find_last_unique {V} n (kvs : list (bytes * V)) v :
-  NoDup (map fst kvs) -> In (n, v) kvs -> find_last n kvs = Some v.
-Proof.
-  intros ND Hin. destruct (find_last n kvs) as [w|] eqn:F.
-  - apply find_last_in in F. f_equal.
-    clear -ND Hin F. induction kvs as [|[k x] kvs IH]; [destruct Hin|].
-    cbn in ND. inversion ND as [|? ? Hn ND']; subst.
-    destruct Hin as [H1|H1], F as [H2|H2].
-    + congruence.
-    + injection H1 as -> ->. exfalso. apply Hn. apply in_map_iff. exists (n, w). split; [reflexivity|exact H2].
-    + injection H2 as -> ->. exfalso. apply Hn. apply in_map_iff. exists (n, v). split; [reflexivity|exact H1].
+  induction kvs as [|[k w] kvs IH]; intros ND Hin; [destruct Hin|].
+  cbn [map fst] in ND. inversion ND as [|? ? Hn ND']; subst.
+  unfold find_merged. cbn [fold_left fst snd]. destruct Hin as [H|H].
+  - injection H as -> ->. rewrite beq_refl. cbn [step_meaning]. apply find_merged_absent, Hn.
+  - destruct (beq n k) eqn:E.
+    + exfalso. apply beq_eq in E. subst k. apply Hn. apply in_map_iff. exists (n, v). split; [reflexivity|exact H].
     + apply IH; assumption.
-  - exfalso. exact (find_last_none n kvs F v Hin).
+Qed.
+Lemma find_merged_in n kvs v : find_merged n kvs None = Some v -> In n (map fst kvs).
+Proof.
+  intros H. destruct (in_dec (list_eq_dec Z.eq_dec) n (map fst kvs)) as [Hin|Hout]; [exact Hin|].
+  rewrite find_merged_absent in H by exact Hout. discriminate.
 Qed.
 
 (* any order of directives with distinct names has the same meaning *)
@@ -639,11 +619,37 @@ Proof.
   assert (ND1 : NoDup (map fst (map kv ds1))) by (rewrite F1; exact ND).
   assert (ND2 : NoDup (map fst (map kv ds2))).
   { rewrite F2. apply (Permutation_NoDup (l := map dn ds1)); [apply Permutation_map, P|exact ND]. }
-  destruct (find_last n (map kv ds1)) as [v|] eqn:E1.
-  - symmetry. apply find_last_unique; [exact ND2|]. apply (Permutation_in _ P'). apply find_last_in, E1.
-  - destruct (find_last n (map kv ds2)) as [w|] eqn:E2; [|reflexivity].
-    exfalso. apply find_last_in in E2. apply (find_last_none n _ E1 w).
-    apply (Permutation_in _ (Permutation_sym P')), E2.
+  destruct (in_dec (list_eq_dec Z.eq_dec) n (map fst (map kv ds1))) as [Hin|Hout].
+  - apply in_map_iff in Hin as ([k v] & E & Hin). cbn [fst] in E. subst k.
+    rewrite (find_merged_unique n _ v ND1 Hin). symmetry. apply find_merged_unique; [exact ND2|].
+    apply (Permutation_in _ P'), Hin.
+  - rewrite find_merged_absent by exact Hout. symmetry. apply find_merged_absent.
+    intros Hin. apply Hout. apply (Permutation_in _ (Permutation_sym (Permutation_map fst P'))), Hin.
+Qed.
+
+(* ---------- occurrences of no-cache add up ---------- *)
+Lemma find_merged_sticky kvs : find_merged no_cache_name kvs (Some []) = Some [].
+Proof.
+  induction kvs as [|[k v] kvs IH]; [reflexivity|]. rewrite find_merged_cons. cbn [fst snd].
+  destruct (beq no_cache_name k); [|exact IH]. cbn [step_meaning]. rewrite beq_refl. exact IH.
+Qed.
+Lemma find_merged_unqualified kvs : forall acc, In (no_cache_name, []) kvs -> find_merged no_cache_name kvs acc = Some [].
+Proof.
+  induction kvs as [|[k v] kvs IH]; intros acc Hin; [destruct Hin|]. rewrite find_merged_cons. cbn [fst snd].
+  destruct Hin as [H|H].
+  - injection H as -> ->. rewrite beq_refl.
+    assert (E : step_meaning no_cache_name acc [] = Some []).
+    { destruct acc as [s|]; cbn [step_meaning]; [|reflexivity]. rewrite beq_refl. unfold merge_args.
+      rewrite Bool.orb_true_r. reflexivity. }
+    rewrite E. apply find_merged_sticky.
+  - apply IH, H.
+Qed.
+(* one occurrence without argument, anywhere in the field, among any other occurrences: the meaning is the unqualified form *)
+Theorem meaning_any_unqualified ds :
+  (exists d, In d ds /\ dn d = no_cache_name /\ da d = []) -> meaning ds no_cache_name = Some [].
+Proof.
+  intros (d & Hin & Hn & Ha). unfold meaning. apply find_merged_unqualified.
+  apply in_map_iff. exists d. split; [rewrite Hn, Ha; reflexivity|exact Hin].
 Qed.
 
 (* the canonical spelling is a spelling *)
